@@ -60,7 +60,9 @@ def st_case(draw):
            # that holds at the generating parameters
            "cp_mode": draw(st.sampled_from(["free", "free", "free", "fixed", "expr"])),
            # scan over k on ONE fitter object (public class nanite.fit.IndentationFitter) vs a new fitter per k
-           "reuse_fitter": draw(st.sampled_from([False, False, True, False]))}
+           "reuse_fitter": draw(st.sampled_from([False, False, True, False])),
+           # k given by a second fit_model call on its own (after a k = 1 fit with all other settings)
+           "two_step": draw(st.sampled_from([False, True, False, False]))}
     cp = curve["params"]["contact_point"]
     if rt == "absolute":
         lo = cp - depth * draw(st.floats(0.3, 1.2))
@@ -103,6 +105,13 @@ def do_fit(case, k):
                   optimal_fit_num_samples=cfg["num_samples"])
     else:
         kw.update(range_type=cfg["range_type"], range_x=cfg["range_x"])
+    if cfg.get("two_step") and k != 1.0:
+        # the factor is given in a second call that names nothing else: everything set before stays as it was
+        with fitgen.catch():
+            idnt.fit_model(**dict(kw, gcf_k=1.0))
+        with fitgen.MinimizeRecorder() as rec:
+            idnt.fit_model(gcf_k=k)
+        return idnt, rec, cp_init, pi
     with fitgen.MinimizeRecorder() as rec:
         idnt.fit_model(**kw)
     return idnt, rec, cp_init, pi
@@ -143,6 +152,7 @@ def check_case(case, ctx):
     ctx.note_case(case, nontrivial=nontrivial,
                   classes=[curve["model"], cfg["range_type"], "noisy" if curve["noise"] else "noise_free",
                            "cp_bounded" if cfg.get("cp_bounds") else "cp_unbounded", "cp_" + cfg.get("cp_mode", "free"),
+                           "two_step" if cfg.get("two_step") else "one_call",
                            f"segment{cfg['segment']}"])
     desc = {"range_type": cfg["range_type"]}
     with ctx.no_raise("fit-raises", dict(desc, k="1")):
@@ -184,6 +194,13 @@ def check_case(case, ctx):
         if abs(f1["optimal_fit_delta"] - fk["optimal_fit_delta"]) > 1e-9 * depth:
             ctx.event("plateau_flip")
             return
+    if not sigma:
+        # exact data: chi-square at the optimum is ~0 for every k; a k-run that reports success far above it has
+        # stopped early (leastsq is not invariant under the rescaling of abscissa and contact point): recorded
+        # finding F36, told apart by this descriptor entry
+        chik, chi1 = float(fk.get("chi_sqr", 0.0)), float(f1.get("chi_sqr", 0.0))
+        if chik > max(1e6 * chi1, (1e-9 * frange) ** 2 * nfit):
+            desc = dict(desc, k_fit="stopped_above_optimum")
     if not sigma:
         # exact data: the relation is asserted when the reference (k = 1) fit has found the generating parameters;
         # otherwise the objective has a flat valley for this interval / weighting (e.g. weighting distance beyond
